@@ -1,11 +1,11 @@
 package main
 
 import (
-	"sort"
-	"go/constant"
 	"fmt"
+	"go/constant"
 	"go/types"
 	"os"
+	"sort"
 	"strings"
 
 	"golang.org/x/tools/go/ssa"
